@@ -541,11 +541,21 @@ class Table(tsdb.Relation):
             values[i] = Row(self.fields,
                             row,
                             field_index=self._field_index)
+        # resolve the slice before the assignment can change the length
+        start, stop, step = index.indices(len(self._rows))
+        if step == 1 and len(values) != max(0, stop - start):
+            # rows after the slice will move, but rows that are only on
+            # disk are found by their position, so load them first
+            self._load_rows(start)
         self._rows[index] = values
-        self._volatile_index = min(
-            self._volatile_index,
-            min(index.indices(len(self._rows))[:2])
-        )
+        self._volatile_index = min(self._volatile_index, start, stop)
+
+    def _load_rows(self, start: int) -> None:
+        """Read the on-disk rows from index *start* into memory."""
+        with tsdb.open(self.dir, self.name, encoding=self.encoding) as fh:
+            rows = list(self._enum_rows(fh, slice(start, None)))
+        for i, row in rows:
+            self._rows[i] = row
 
     def __len__(self) -> int:
         return len(self._rows)
